@@ -251,34 +251,38 @@ def check_grid(prog: Program, res: Result) -> None:
     # make_confmaps: x with xv on the last axis, y with yv on the second-to-last
     mc = prog.func(f"{CM}:make_confmaps")
     res.touch(mc)
-    defs = {}
-    for st in walk_function(mc.node):
-        if isinstance(st, ast.Assign) and isinstance(st.targets[0], ast.Name):
-            defs[st.targets[0].id] = st.value
-    def shape_of(v):
-        return norm(v.args[1]) if isinstance(v, ast.Call) and norm(v.func) == "torch.reshape" and len(v.args) == 2 else None
-    def coord_of(v):
-        if isinstance(v, ast.Call) and v.args and isinstance(v.args[0], ast.Subscript):
-            s = v.args[0].slice
-            if isinstance(s, ast.Tuple) and isinstance(s.elts[-1], ast.Constant):
-                return s.elts[-1].value
+    rets_ = [r_ for r_ in walk_function(mc.node) if isinstance(r_, ast.Return) and r_.value is not None]
+    full = astq.expand_at(mc.node, rets_[0].value, rets_[0]) if len(rets_) == 1 else None
+
+    def grid_side(v):
+        """(grid vector name, reshape target) of torch.reshape(G, shape) / G.reshape(shape) / G.view(shape)"""
+        if isinstance(v, ast.Call) and norm(v.func) == "torch.reshape" and len(v.args) == 2 and isinstance(v.args[0], ast.Name):
+            return v.args[0].id, norm(v.args[1])
+        if isinstance(v, ast.Call) and isinstance(v.func, ast.Attribute) and v.func.attr in ("reshape", "view") and isinstance(v.func.value, ast.Name):
+            sh = v.args[0] if len(v.args) == 1 and isinstance(v.args[0], (ast.Tuple, ast.List)) else ast.Tuple(elts=list(v.args), ctx=ast.Load())
+            return v.func.value.id, norm(sh)
         return None
-    pairs = []
-    for n_ in walk_function(mc.node):
-        if isinstance(n_, ast.BinOp) and isinstance(n_.op, ast.Sub) and isinstance(n_.left, ast.Name) and isinstance(n_.right, ast.Name):
-            pairs.append((n_.left.id, n_.right.id))
-    ok = len(pairs) == 2
+
+    def coord_of(v):
+        """which coordinate of points_batch an expression reads (the constant last index of the first subscript of it)"""
+        for x_ in ast.walk(v):
+            if isinstance(x_, ast.Subscript) and "points_batch" in norm(x_.value):
+                s_ = x_.slice
+                last = s_.elts[-1] if isinstance(s_, ast.Tuple) else s_
+                if isinstance(last, ast.Constant):
+                    return last.value
+        return None
+
     detail = []
-    for g, p in pairs:
-        gs, pc = shape_of(defs.get(g)), coord_of(defs.get(p))
-        src = norm(defs[g].args[0]) if isinstance(defs.get(g), ast.Call) and defs[g].args else None
-        detail.append((src, gs, pc))
-        if src == "xv":
-            ok = ok and gs == "(1, 1, 1, -1)" and pc == 0
-        elif src == "yv":
-            ok = ok and gs == "(1, 1, -1, 1)" and pc == 1
-        else:
-            ok = False
+    ok = full is not None
+    subs = [n_ for n_ in ast.walk(full) if isinstance(n_, ast.BinOp) and isinstance(n_.op, ast.Sub)] if full is not None else []
+    for n_ in subs:
+        for g_, p_ in ((n_.left, n_.right), (n_.right, n_.left)):
+            gs = grid_side(g_)
+            pc = coord_of(p_)
+            if gs is not None and gs[0] in ("xv", "yv") and pc is not None:
+                detail.append((gs[0], gs[1], pc))
+    ok = ok and sorted(detail) == [("xv", "(1, 1, 1, -1)", 0), ("yv", "(1, 1, -1, 1)", 1)]
     res.ob(R, ok, mc.qualname, "x (coordinate 0) pairs with xv on the last axis, y (coordinate 1) with yv on axis -2",
            f"grid/coordinate pairing is {detail}: x and y (or width and height axes) are swapped", mc.where, sample={"pairing": detail})
     res.floor(R, 12)
